@@ -1,0 +1,22 @@
+//go:build verif && (verif_all || verif_c08)
+// +build verif
+// +build verif_all verif_c08
+
+package streams
+
+// Verification hook (build tags `verif` + `verif_c08`): yield(k) is called
+// immediately before the atomic operation number k of GetStream / Clear /
+// Available, so that a deterministic scheduler can run the allocator one atomic
+// step at a time. Add-only; see yield_off.go for the untagged build.
+
+var verifYield func(int)
+
+// SetVerifYield installs (or, with nil, removes) the hook. It must not be
+// called while another goroutine is inside the allocator.
+func SetVerifYield(f func(int)) { verifYield = f }
+
+func yield(k int) {
+	if f := verifYield; f != nil {
+		f(k)
+	}
+}
